@@ -5,6 +5,7 @@ mod gen;
 mod helpers;
 mod cli;
 mod hist;
+mod nest;
 
 use serde_json::{json, Value};
 use std::fs::File;
@@ -19,6 +20,10 @@ fn die(msg: &str) -> ! {
 
 fn arg_opt(args: &[String], name: &str) -> Option<String> {
     args.iter().position(|a| a == name).and_then(|i| args.get(i + 1).cloned())
+}
+
+pub fn profile_name() -> &'static str {
+    profile()
 }
 
 fn profile() -> &'static str {
@@ -273,6 +278,8 @@ fn main() {
         "helpers" => helpers::cmd_helpers(rest),
         "cli" => cli::cmd_cli(rest),
         "hist" => hist::cmd_hist(rest),
+        "nest" => nest::cmd_nest(rest),
+        "nest-child" => nest::cmd_child(rest),
         "plain" => {
             // plain <aj.ndjson>: print rule/data as plain JSON (debug aid)
             for c in load_cases(&rest[0]) {
